@@ -1452,10 +1452,11 @@ def enumerate_faults(prog):
             for idx in sorted({j + 1, len(t["ins"])}):
                 add("duplicate_in_param", tref, edit("insert", tref, ref=tref + ["ins"], index=idx, value=[x, ty]),
                     "parameter %s again at %d" % (x, idx))
-            if t["name"] not in called and _occurrences(t, x) == 1:
-                elem, arr = parse_type(ty)
-                add("unknown_type_in_task_in", tref, edit("set", tref, ref=tref + ["ins", j, 1], value=f_type + ty[len(elem):]),
-                    "parameter %s" % x)
+            # also for a called task / a used parameter: the follow-up messages (the call sites of another task, the uses
+            # in the body) are additional, the unknown type itself is still to be reported inside this definition
+            elem, arr = parse_type(ty)
+            add("unknown_type_in_task_in", tref, edit("set", tref, ref=tref + ["ins", j, 1], value=f_type + ty[len(elem):]),
+                "parameter %s%s" % (x, "" if t["name"] not in called and _occurrences(t, x) == 1 else " (used)"))
         for j, x in enumerate(t.get("outs", [])):
             for cls in ("unknown_variable_in_task_out", "undeclared_task_output"):
                 add(cls, tref, edit("set", tref, ref=tref + ["outs", j], value=f_var), "Out %d" % j)
